@@ -4348,10 +4348,10 @@ class NetCDFWrite(IOWrite):
                 else:
                     g["Conventions"] = set_Conventions.split()
 
-        for i, c in enumerate(g["Conventions"][:]):
-            x = re.search(r"CF-(\d.*)", c)
-            if x:
-                g["Conventions"].pop(i)
+        # Remove any CF version: the output CF version is prepended below
+        g["Conventions"] = [
+            c for c in g["Conventions"] if not re.search(r"CF-(\d.*)", c)
+        ]
 
         if [x for x in g["Conventions"] if "," in x]:
             raise ValueError(
